@@ -30,7 +30,7 @@ From AV Require Import Base.Bytes Base.Outcome Hash.HashModel Tree.Heap Tree.Ops
   Tree.MergeSpec Tree.MergePure Tree.LoadProofs Tree.LoadProofsWalk Tree.LoadProofsRefuted
   Tree.MergePureProofsBase Tree.MergePureProofs Tree.MergePureProofsMain Tree.MergePureProofsKeys
   Tree.LoadRefineBase Tree.LoadRefinePure Tree.LoadRefineHeap Tree.LoadRefineMain Tree.LoadRefineGood Tree.LoadRefineTop
-  Tree.LoadEffects Tree.MergeGoodExamples Tree.LoadResidue Tree.LoadRefineIndex.
+  Tree.LoadEffects Tree.MergeGoodExamples Tree.LoadResidue Tree.LoadRefineIndex Tree.MergePureVersions.
 From AV Require Xml.Lexer Xml.Parser.
 Open Scope N_scope.
 
@@ -526,3 +526,72 @@ Theorem C09_example_union_total :
     Forall2 (fun g o => o = OK g) [0; 1] os /\
     exists ta, abs_model w 0 = Some (erase ta) /\ hperm (erase ta) (expected None TinyM.master).
 Proof. exact tiny_union_total. Qed.
+
+(* ====================================================================== class Good: choice groups, versions *)
+(* a choice group inside a sequence is inside the class (SeqKids asks for a SEQUENCE as the common group of any two
+   sub-elements; two alternatives of one choice cannot coexist anyway: calc_element_insert_range rejects the second) *)
+Theorem C09_class_choice_group_nonvacuous :
+  Good TinyC.tinyC TinyC.DEFREF 2 TinyC.master /\
+  find_sub_element TinyC.tinyC (0, 0) TinyC.nB 2 = Val (Some ((2, 2), [1; 0])) /\
+  TinyC.final [("f0"%string, TinyC.file0); ("f1"%string, TinyC.file1)] = Some (expected None TinyC.master) /\
+  TinyC.final [("f1"%string, TinyC.file1); ("f0"%string, TinyC.file0)] = Some (expected None TinyC.master_10).
+Proof. exact (conj TinyC.master_good (conj TinyC.idx_B (conj TinyC.merge_01 TinyC.merge_10))). Qed.
+
+(* ---- files of different versions [U]: the pure merge does not depend on WHICH versions of a set vs the files have, as
+        long as splittable_in and find_sub_element agree over vs on the types and element names of the two trees (HU) *)
+Theorem C09_merge_version_independent :
+  forall (T : tables) (LATEST defref : N) (vs : list N) (v0 : N) (NM : list N) (fver fver' : N -> option N),
+    VOK LATEST vs fver -> VOK LATEST vs fver' ->
+    forall (fuel : nat) (a : htree) (files : list N) (b : htree) (nf : N),
+      HU T vs v0 NM a -> HU T vs v0 NM b ->
+      pmerge T LATEST defref fver fuel a files b nf = pmerge T LATEST defref fver' fuel a files b nf.
+Proof. exact pmerge_versions. Qed.
+
+(* the merge step (C09_merge_step) for files whose versions are in vs, for a master of the class (at one version v0 of vs)
+   whose elements have the same type and split behaviour in all versions of vs — uniformb, a boolean on the master *)
+Theorem C09_merge_step_versions :
+  forall (T : tables) (LATEST defref : N) (vs : list N) (v0 : N) (fver : N -> option N),
+    VOK LATEST vs fver -> In v0 vs ->
+  forall (fuel : nat) (t : mtree), Good T defref v0 t -> uniformb T vs v0 t = true ->
+  forall (F : list N) (g : N) (inh : option (list N)) (a : htree),
+    (depth t < fuel \/ hdepth a < fuel)%nat ->
+    ~ In g F -> In g (mfiles t) -> Rep T F inh t a ->
+    exists a', pmerge T LATEST defref fver fuel a (inF F (mfiles t)) (pview g t) g = Val (OK a') /\
+               h_local a' = h_local a /\
+               forall inh', Rep T (g :: F) inh' t (h_set_local a' (norm inh' (inF (g :: F) (mfiles t)))).
+Proof.
+  exact (fun T L d vs v0 fver HV Hv fuel t HG HU =>
+           pmerge_rep_versions T L d vs v0 (mnames t) fver HV Hv fuel t HG (uniformb_sound T vs v0 t HU)).
+Qed.
+
+(* ---- C09 on the heap model for files of different versions, unconditionally (as C09_merge_union_views_total, for
+        parsed files; every file of the world has a version of vs, LATEST is one of them) *)
+Theorem C09_merge_union_versions :
+  forall (T : tables) (LATEST defref : N) (vs : list N) (v0 : N) (M : mtree) (m : N) (x : model) (w0 : world) (n : nat)
+         (items : list item),
+    Good T defref v0 M -> uniformb T vs v0 M = true -> In v0 vs ->
+    nth_opt (w_models w0) (N.to_nat m) = Some x -> m_files x = [] -> m_idents x = [] ->
+    VOK LATEST vs (fver_files (w_files w0)) ->
+    let gs := n_range (S n) (N.of_nat (List.length (w_files w0))) in
+    Forall2 (fun g it => (project g M = Some (snd (fst it)) /\ In (Parser.p_version (snd it)) vs) /\
+                         StOf T (snd it) (snd (fst it))) gs items ->
+    (forall g, In g gs -> In g (mfiles M)) -> PathsOK T M gs ->
+    exists os w,
+      load_seq T LATEST defref m items w0 = Val (os, w) /\ Forall2 (fun g o => o = OK g) gs os /\
+      exists ta, ModelTree w m ta gs /\ abs_model w m = Some (erase ta) /\
+                 Rep T (rev gs) None M (erase ta) /\
+                 (covers gs M -> hperm (erase ta) (expected None M)) /\
+                 (forall f, In f gs -> hperm (hproj f (erase ta)) (pview f M)).
+Proof. exact heap_union_versions. Qed.
+
+(* non-vacuity: the tiny master is uniform over the versions 1 and 2, and its views loaded as files of versions 1 and 2
+   merge to the master *)
+Theorem C09_example_versions :
+  uniformb TinyM.tiny [1; 2] 2 TinyM.master = true /\
+  match load_seq TinyM.tiny TinyM.LATEST TinyM.DEFREF 0
+          [(BS "f0", TinyM.file0, pstate_of TinyM.tiny 1 TinyM.file0); (BS "f1", TinyM.file1, pstate_of TinyM.tiny 2 TinyM.file1)]
+          TinyM.new_world with
+  | Val (os, w) => (os, abs_model w 0)
+  | _ => ([], None)
+  end = ([OK 0; OK 1], Some (expected None TinyM.master)).
+Proof. exact (conj tiny_uniform tiny_mixed_versions). Qed.
